@@ -468,8 +468,10 @@ def runCambridge (P : Params) : GenM (List (List Ballot)) := do
     let opp := (b + 1) % 2
     let letter := fun j => (P.histLetter[j]?).getD 0
     let c := (((P.cohesion[b]?).getD [])[b]?).getD 0
-    let ivs ← blocIntervals P b
-    let comb ← liftO "combined interval" (combineIntervals ivs [c, 1 - c])
+    -- the bloc's own slate carries the share `c`, the opposing slate `1 - c` (looked up by name; after repair F-C14-c)
+    let ownIv ← slateInterval P b b
+    let oppIv ← slateInterval P b opp
+    let comb ← liftO "combined interval" (combineIntervals [ownIv, oppIv] [c, 1 - c])
     let pool := fun (l : Nat) => P.hist.map (fun h => h.filter (fun tf => tf.1.head? = some l))
     let t1 ← expectTypes (pool (letter b)) bv s!"bloc {b}: bloc-first types"
     let t2 ← expectTypes (pool (letter opp)) cv s!"bloc {b}: opposing-first types"
